@@ -76,18 +76,47 @@ func refactorFamily(c map[string]json.RawMessage) (interface{}, error) {
 	switch str(c, "op") {
 	case "rename":
 		// `coca analysis` then `coca refactor -R conf -d deps.json`: deps go through their JSON form
-		deps := analyse(dir)
-		b, _ := json.Marshal(deps)
 		var parsed []core_domain.CodeDataStruct
-		_ = json.Unmarshal(b, &parsed)
+		cli := boolean(c, "cli") && str(c, "only") != "sites"
+		work := ""
+		if cli {
+			// the commands themselves, each in a fresh process: `coca analysis -p dir`, then `coca refactor -R conf -d deps.json`
+			var err error
+			if work, err = newWork(); err != nil {
+				return nil, err
+			}
+			defer os.RemoveAll(work)
+			if _, err := cocaCli(work, "analysis", "-p", dir); err != nil {
+				return nil, err
+			}
+			b, err := getReport(work, "deps.json")
+			if err != nil {
+				return nil, err
+			}
+			_ = json.Unmarshal(b, &parsed)
+		} else {
+			deps := analyse(dir)
+			b, _ := json.Marshal(deps)
+			_ = json.Unmarshal(b, &parsed)
+		}
 		oldName, newName := str(c, "old"), str(c, "new")
 		seg := strings.Split(oldName, ".")
 		sites := renameSites(parsed, strings.Join(seg[:len(seg)-2], ".")+seg[len(seg)-2], seg[len(seg)-1], strip)
 		if str(c, "only") == "sites" {
 			return map[string]interface{}{"sites": sites}, nil
 		}
-		app := renameapp.RenameMethodApp(parsed)
-		app.Refactoring(oldName + " -> " + newName)
+		if cli {
+			conf := filepath.Join(work, "rename.txt")
+			if err := os.WriteFile(conf, []byte(oldName+" -> "+newName), 0644); err != nil {
+				return nil, err
+			}
+			if _, err := cocaCli(work, "refactor", "-R", conf, "-d", filepath.Join(work, "coca_reporter", "deps.json")); err != nil {
+				return nil, err
+			}
+		} else {
+			app := renameapp.RenameMethodApp(parsed)
+			app.Refactoring(oldName + " -> " + newName)
+		}
 		files := readTree(dir)
 		after := analyse(dir)
 		return map[string]interface{}{"sites": sites, "files": files, "before": nodesJ(parsed, strip), "after": nodesJ(after, strip)}, nil
@@ -112,6 +141,24 @@ func refactorFamily(c map[string]json.RawMessage) (interface{}, error) {
 			}
 			sort.Strings(names)
 			front = append(front, map[string]interface{}{"path": strings.TrimPrefix(file, strip), "name": n.Name, "imports": imps, "names": names})
+		}
+		if boolean(c, "cli") {
+			// the command itself, twice, each in a fresh process: `coca refactor -m move.config -p dir` (an empty move list)
+			work, err := newWork()
+			if err != nil {
+				return nil, err
+			}
+			defer os.RemoveAll(work)
+			conf := filepath.Join(work, "move.config")
+			_ = os.WriteFile(conf, []byte(""), 0644)
+			if _, err := cocaCli(work, "refactor", "-m", conf, "-p", dir, "-d", ""); err != nil {
+				return nil, err
+			}
+			files1 := readTree(dir)
+			if _, err := cocaCli(work, "refactor", "-m", conf, "-p", dir, "-d", ""); err != nil {
+				return nil, err
+			}
+			return map[string]interface{}{"front": front, "files1": files1, "files2": readTree(dir)}, nil
 		}
 		app := unusedapp.NewRemoveUnusedImportApp(dir)
 		app.Refactoring(app.Analysis())
